@@ -710,16 +710,24 @@ def run_oneport(chk, drv, L, state):
 
 # --------------------------------------------------------------------------- two-ports
 
+TPMODELS = ('TPA', 'TPB', 'TPG', 'TPH', 'TPY', 'TPZ')
+
+
 class TPSpec:
     """abstract two-port construction: kind + one-port trees / sub-constructions"""
 
-    def __init__(self, kind, ops=(), subs=()):
+    def __init__(self, kind, ops=(), subs=(), params=()):
         self.kind = kind
         self.ops = list(ops)
         self.subs = list(subs)
+        self.params = list(params)      # IdealGyrator(R) / TPA..TPZ(m11, m12, m21, m22): plain rationals
 
     def tokens(self):
         k = self.kind
+        if k == 'IdealGyrator':
+            return [k, fstr(self.params[0])]
+        if k in TPMODELS:
+            return ['TPM', k[2]] + [fstr(v) for v in self.params]
         out = [k]
         if k in ('Ladder', 'LadderAlt'):
             out.append(str(len(self.ops)))
@@ -732,6 +740,8 @@ class TPSpec:
     def build(self, L):
         tp = L.lcapy.twoport
         with contextlib.redirect_stdout(io.StringIO()):
+            if self.params:
+                return getattr(tp, self.kind)(*[L.arg(v) for v in self.params])
             if self.subs:
                 return getattr(tp, self.kind)(*[t.build(L) for t in self.subs])
             return getattr(tp, self.kind)(*[L.build(o) for o in self.ops])
@@ -765,8 +775,27 @@ def gen_section(rng, with_src=False):
     return TPSpec(k, [gen_op(rng, with_src) for _ in range(n)])
 
 
+def gen_nonreciprocal(rng):
+    """a two-port with Z12 != Z21: an ideal gyrator, or a TPA/TPB/TPG/TPH/TPY/TPZ model with random
+    (generically asymmetric, non-singular) rational entries"""
+    if rng.random() < 0.35:
+        return TPSpec('IdealGyrator', params=[rnd_pos(rng)])
+    while True:
+        m = [rnd_any(rng) for _ in range(4)]
+        if m[0] * m[3] - m[1] * m[2] != 0 and abs(m[1]) != abs(m[2]):
+            return TPSpec(rng.choice(TPMODELS), params=m)
+
+
 def gen_twoport(rng, case):
-    m = case % 8
+    m = case % 10
+    if m == 8:
+        # passive section -> non-reciprocal two-port -> passive section
+        return TPSpec('Chain', subs=[gen_section(rng), TPSpec('Chain', subs=[gen_nonreciprocal(rng), gen_section(rng)])])
+    if m == 9:
+        if rng.random() < 0.5:
+            return TPSpec('Chain', subs=[gen_nonreciprocal(rng), gen_section(rng)])
+        return TPSpec('Chain', subs=[TPSpec('Series', [gen_op(rng)]),
+                                     TPSpec('Chain', subs=[gen_nonreciprocal(rng), TPSpec('Shunt', [gen_op(rng)])])])
     if m in (0, 1, 2):
         return gen_section(rng, with_src=(m == 2))
     if m == 3:
@@ -907,32 +936,97 @@ def run_twoport(chk, drv, L, state):
         else:
             try:
                 with contextlib.redirect_stdout(io.StringIO()):
-                    cct = L.lcapy.Circuit(tp.netlist())
+                    nl = tp.netlist()
+                    cct = L.lcapy.Circuit(nl + '\n')
             except Exception as e:   # noqa
                 cct = None
                 chk.count('lcapy-error', 'netlist:%s' % type(e).__name__)
-            # H and G need two more probe circuits each: extracted only for the classes whose native matrix is
-            # converted to them (Par2 / Ser2); the other classes are covered by B, A, Z, Y
-            for X in (('BAZYHG' if spec.kind in ('Par2', 'Ser2') else 'BAZY') if cct is not None else ''):
-                if isinstance(lc[X], str) or any(v is None for v in lc[X]):
-                    continue
+            nonrecip = any(k == 'IdealGyrator' or k in TPMODELS for k in spec.all_kinds())
+            chk.count('twoport-reciprocity', 'non-reciprocal' if nonrecip else 'reciprocal')
+            # ---- oracle f: a port behaviour SOLVED FROM THE NETLIST (sources dead, a current probe at each port,
+            #      Lcapy's own nodal analysis -- no parameter-extraction code involved) must satisfy Spec.rel of
+            #      every matrix the algebra reports and of every matrix extracted from the netlist, in both port orders
+            nports = []
+            if cct is not None:
                 try:
                     with time_limit(tlimit), contextlib.redirect_stdout(io.StringIO()):
-                        got = mat_at(getattr(cct, X + 'params')(1, 0, 3, 2), s)
+                        probe = cct.kill()
+                        probe.add('Iprobea_ 1 0 s {xa_}')
+                        probe.add('Iprobeb_ 3 2 s {xb_}')
+                        v1 = probe.Voc(1, 0).laplace().sympy
+                        v2 = probe.Voc(3, 2).laplace().sympy
+                    S = L.sympy
+                    for _ in range(2):
+                        x, y = rnd_any(rng), rnd_any(rng)
+                        sub = {L.ssym: S.Rational(s.numerator, s.denominator)}
+                        for e in (v1, v2):
+                            for sym_ in e.free_symbols:
+                                if sym_.name == 'xa_':
+                                    sub[sym_] = S.Rational(x.numerator, x.denominator)
+                                elif sym_.name == 'xb_':
+                                    sub[sym_] = S.Rational(y.numerator, y.denominator)
+                        vals = [S.nsimplify(S.cancel(e.subs(sub))) for e in (v1, v2)]
+                        if all(v.is_Rational for v in vals):
+                            nports.append((Fraction(int(vals[0].p), int(vals[0].q)), x, Fraction(int(vals[1].p), int(vals[1].q)), y))
                 except LcTimeout:
-                    chk.count('lcapy-timeout', 'cct.%sparams' % X)
-                    continue
+                    chk.count('lcapy-timeout', 'netlist-port')
                 except Exception as e:   # noqa
-                    chk.count('lcapy-error', 'cct.%sparams:%s' % (X, type(e).__name__))
+                    # no Z description (a purely series path between the probes, ...): nothing to solve this way
+                    chk.count('degenerate', 'netlist-port-unsolvable:%s' % type(e).__name__)
+            # the probe current convention (current INTO the + node of each port) is checked against the model's own
+            # B matrix once per port, so a sign slip here cannot pass or fail anything silently
+            if nports and all(v is not None for v in mod[:4]):
+                for pp in nports:
+                    if drv.ask1('tp.rel B %s 1 %s' % (' '.join(fstr(v) for v in mod[:4]), ' '.join(fstr(v) for v in pp))) != 'true':
+                        chk.count('netlist-port', 'not-on-model-relation')
+                    else:
+                        chk.count('netlist-port', 'on-model-relation')
+            for pp in nports:
+                pt = ' '.join(fstr(v) for v in pp)
+                for X in 'ABZYHG':
+                    if isinstance(lc[X], str) or any(v is None for v in lc[X]):
+                        continue
+                    chk.count('spec-judged', 'netlist-port.tp.' + X)
+                    if drv.ask1('tp.rel %s %s 1 %s' % (X, ' '.join(fstr(v) for v in lc[X]), pt)) != 'true':
+                        finding({'kind': 'twoport', 'cause': 'netlist-port-not-on-reported-matrix', 'class': spec.kind, 'params': X},
+                                dict(replay, port=pt), 'a port behaviour of Circuit(tp.netlist()) does not satisfy %s.%sparams' % (spec.kind, X))
+            # ---- oracle a: extraction from the netlist.  B, A, Z, Y always; H and G (two more probe circuits each)
+            #      for Y/Z-native classes and for non-reciprocal constructions; the reversed port order (3,2,1,0)
+            #      for non-reciprocal constructions, judged on the mirrored netlist port
+            full = spec.kind in ('Par2', 'Ser2') or nonrecip
+            for X in (('BAZYHG' if full else 'BAZY') if cct is not None else ''):
+                if isinstance(lc[X], str) or any(v is None for v in lc[X]):
                     continue
-                if any(v is None for v in got):
-                    chk.count('degenerate', 'cct.%sparams-not-finite' % X)
-                    continue
-                chk.count('routes-compared', 'twoport.' + X)
-                if got != lc[X]:
-                    finding({'kind': 'twoport', 'cause': 'netlist-params-differ', 'class': spec.kind, 'params': X},
-                            dict(replay, netlist_params=[fstr(v) for v in got]),
-                            '%s.%sparams differs from Circuit(tp.netlist()).%sparams(1,0,3,2)' % (spec.kind, X, X))
+                for order in ((1, 0, 3, 2), (3, 2, 1, 0)):
+                    rev = order[0] == 3
+                    if rev and not nonrecip:
+                        continue
+                    try:
+                        with time_limit(tlimit), contextlib.redirect_stdout(io.StringIO()):
+                            got = mat_at(getattr(cct, X + 'params')(*order), s)
+                    except LcTimeout:
+                        chk.count('lcapy-timeout', 'cct.%sparams' % X)
+                        continue
+                    except Exception as e:   # noqa
+                        chk.count('lcapy-error', 'cct.%sparams:%s' % (X, type(e).__name__))
+                        continue
+                    if any(v is None for v in got):
+                        chk.count('degenerate', 'cct.%sparams-not-finite' % X)
+                        continue
+                    chk.count('routes-compared', 'twoport.' + X + ('.reversed' if rev else ''))
+                    if not rev and got != lc[X]:
+                        finding({'kind': 'twoport', 'cause': 'netlist-params-differ', 'class': spec.kind, 'params': X},
+                                dict(replay, netlist_params=[fstr(v) for v in got]),
+                                '%s.%sparams differs from Circuit(tp.netlist()).%sparams(1,0,3,2)' % (spec.kind, X, X))
+                    for pp in nports:
+                        q = (pp[2], pp[3], pp[0], pp[1]) if rev else pp
+                        qt = ' '.join(fstr(v) for v in q)
+                        chk.count('spec-judged', 'netlist-port.cct.' + X + ('.reversed' if rev else ''))
+                        if drv.ask1('tp.rel %s %s 1 %s' % (X, ' '.join(fstr(v) for v in got), qt)) != 'true':
+                            finding({'kind': 'twoport', 'cause': 'netlist-extraction', 'params': X, 'reversed': rev},
+                                    dict(replay, netlist_params=[fstr(v) for v in got], port=qt, order=list(order)),
+                                    'Circuit(tp.netlist()).%sparams%s does not describe a port behaviour solved from the same netlist' % (X, order))
+                            break
 
         # ---- oracle e: connections of two two-ports, judged by Spec.rel on connected ports (every
         #      representation the class reports, including the conversions of its native Y/Z/H/G matrix)
@@ -1010,8 +1104,13 @@ def run_twoport(chk, drv, L, state):
                     if lc_src is None or any(v is None for v in lc_src):
                         continue
                     r = drv.ask1('tp2.relBs %s %s %s %s' % (' '.join(fstr(v) for v in lc['B']), fstr(lc_src[0]), fstr(lc_src[1]), pt))
+                    # C07-d is the sign of V2b of `Series` stages: it can only show when a SERIES arm carries a source
+                    ser_ops = {'LSection': [0], 'TSection': [0, 2], 'PiSection': [1]}[spec.kind]
+                    ser_src = any(k in ('stepV', 'stepI', 'sV', 'sI', 'V', 'I', 'dcV', 'dcI') or spec.ops[j].has_ic()
+                                  for j in ser_ops for k in spec.ops[j].kinds())
+                    chk.count('source-vector', ('series-arm-source' if ser_src else 'shunt-arm-source-only') + (':ok' if r == 'true' else ':fails'))
                     if r != 'true':
-                        finding({'kind': 'twoport', 'cause': 'series-V2b-sign'},
+                        finding({'kind': 'twoport', 'cause': 'series-V2b-sign' if ser_src else 'source-vector'},
                                 dict(replay, port=pt), '(B, V2b, I2b) of %s does not describe the physical network with its sources' % spec.kind)
                         break
                 else:
@@ -1162,6 +1261,22 @@ def run(chk, replay=None):
                             'rational sample point s); non-trivial = depth >= 1 and the precondition tOK or nOK holds; distinct by (tree, s)')
     import time as _time
     t0 = _time.time()
+    chk.coverage['outside_property'] = {
+        'Hybrid2 / InverseHybrid2 / Ser2(x, non-Shunt)': (
+            'Their generated netlists connect two COMMON-GROUND (three-terminal) networks with at least one pair of ports in '
+            'series. The ground rail of the first network then shorts a series arm (Ser2) or the whole input/output port '
+            '(Hybrid2 / InverseHybrid2) of the second, so the constituents no longer carry equal and opposite port currents '
+            '(port condition, Brune test). Adding Z / H / G matrices is valid exactly under that condition -- it is the '
+            'hypothesis `rel .B b_k p_k` of theorems ser2_Z, hybrid2_H, invhybrid2_G -- so the netlist parameters differ from '
+            'the algebra by circuit theory, not by a defect; Lcapy itself warns for Ser2. These cases are counted under '
+            'degenerate/netlist-breaks-port-condition, are never generated for Ser2 (second argument is always a Shunt) and '
+            'are still covered by the model correspondence and by the Lean-judged connection oracle (oracle e).'),
+        'source terms of Series-type sections': (
+            'V1oc, V2oc, I1sc, I2sc, V1z, I1y ... are all derived from (V2b, I2b) by formulas that are consistent with the B '
+            'model; the only sign error is V2b = +Voc of Series / SeriesAlt (known finding C07-d). The run separates source-'
+            'vector failures by whether a SERIES arm carries a source (distribution table source-vector): a failure with '
+            'sources in shunt arms only is reported under a different key (cause source-vector) and would be a VIOLATION.'),
+    }
     run_oneport(chk, drv, L, state)
     t1 = _time.time()
     run_twoport(chk, drv, L, state)
